@@ -133,3 +133,59 @@ func solve(dir, name, script string, timeoutS int) SolveResult {
 	}
 	return best
 }
+
+// solveAgree (thorough tier) runs every back end on the script and requires their definite answers to agree.
+func solveAgree(dir, name, script string, timeoutS int) SolveResult {
+	path := filepath.Join(dir, name+".smt2")
+	os.WriteFile(path, []byte(script), 0o644)
+	ctx, cancel := context.WithTimeout(context.Background(), time.Duration(timeoutS+2)*time.Second)
+	defer cancel()
+	ch := make(chan SolveResult, len(solvers))
+	for _, s := range solvers {
+		go func(s []string) {
+			args := []string{}
+			for _, a := range s[1:] {
+				if strings.Contains(a, "%d") {
+					a = fmt.Sprintf(a, timeoutS)
+				}
+				args = append(args, a)
+			}
+			args = append(args, path)
+			t0 := time.Now()
+			cmd := exec.CommandContext(ctx, s[0], args...)
+			var out bytes.Buffer
+			cmd.Stdout = &out
+			cmd.Stderr = &out
+			cmd.Run()
+			first := strings.TrimSpace(strings.SplitN(out.String(), "\n", 2)[0])
+			st := "unknown"
+			if first == "unsat" || first == "sat" {
+				st = first
+			}
+			ch <- SolveResult{Status: st, Backend: s[0], Ms: time.Since(t0).Milliseconds(), Model: out.String()}
+		}(s)
+	}
+	var results []SolveResult
+	for range solvers {
+		results = append(results, <-ch)
+	}
+	best := SolveResult{Status: "unknown"}
+	var agree []string
+	for _, r := range results {
+		if r.Status == "sat" || r.Status == "unsat" {
+			if best.Status == "unknown" {
+				best = r
+			} else if best.Status != r.Status {
+				return SolveResult{Status: "error", Backend: best.Backend + "/" + r.Backend, Ms: r.Ms,
+					Model: fmt.Sprintf("BACK ENDS DISAGREE: %s says %s, %s says %s", best.Backend, best.Status, r.Backend, r.Status)}
+			}
+			agree = append(agree, r.Backend)
+		} else if best.Status == "unknown" && best.Model == "" {
+			best = r
+		}
+	}
+	if len(agree) > 0 {
+		best.Backend = strings.Join(agree, "+")
+	}
+	return best
+}
